@@ -57,7 +57,7 @@ def main():
         "hooks": {
             "guard": "verif (Go build tag)",
             "enable": "harness is built with `go build -tags verif` against /repo via a replace directive (GOFLAGS=-mod=mod GOPROXY=off GOWORK=off)",
-            "baseline_off_cmd": "for m in . plugins/contrib; do (cd /repo/$m && GOFLAGS=-mod=mod GOPROXY=off go test -vet=off -count=1 -timeout 25m ./...) || exit 1; done",
+            "baseline_off_cmd": "for m in . plugins/contrib; do (cd /repo/$m && GOFLAGS=-mod=mod GOPROXY=off GOWORK=off go test -json -vet=off -count=1 -timeout 25m ./...); done",
             "source_commits": hooks,
             "add_only": True,
         },
